@@ -17,7 +17,7 @@ prop("C08", pkg="c08",
      vlimit_gb=16,
      technique="property-based testing (rapid) + exhaustive prefix/header-mutation enumeration per generated encoding, validity and metamorphic oracles, "
                "out-of-process supervision with address-space limit and stall watchdog",
-     level_text="Exploration: ~0.8 M decode calls per quick run on the current tree (several millions once the listed defects are repaired, because the case count is "
+     level_text="Exploration: ~0.5 M decode calls per quick run on the current tree (several millions once the listed defects are repaired, because the case count is "
                 "raised when no worker restarts are needed): no panic or fatal fault; every proper prefix of a valid encoding gives errors.Is(err, io.ErrUnexpectedEOF) "
                 "(io.EOF for empty input); negative / oversized counts give an error; TotalAlloc delta <= 64 MiB for inputs <= 4 KiB; undeclared fields of any type and "
                 "nesting leave the decoded value unchanged; trailing bytes, missing required fields (*MissingField) and strict-mode wire type changes (*TypeMismatch) are "
